@@ -167,6 +167,18 @@ func (e *Engine) intrinsic(s *State, f *Frame, call *ssa.Call, fn *ssa.Function,
 		cells := e.bytesOfSlice(s, args[0])
 		set(mkStr(hexCells(cells)))
 		return true
+	case "encoding/hex.Encode":
+		src := e.bytesOfSlice(s, args[1])
+		dst := args[0].(SliceV)
+		cells := hexCells(src)
+		if !e.panicIf(s, BVCmp("bvslt", dst.Len, I64(len(cells))), "index out of range (hex.Encode destination too short)", in) {
+			return true
+		}
+		for i, c := range cells {
+			e.store(s, PtrV{Obj: dst.Obj, Path: extendPath(dst.Path, elemAt(dst.Off, i))}, c)
+		}
+		set(I64(len(cells)))
+		return true
 	case "crypto/sha512.Sum384":
 		cells := e.bytesOfSlice(s, args[0])
 		e.Stubs["sha384: uninterpreted per-byte fold"] = true
@@ -222,8 +234,8 @@ func (e *Engine) intrinsic(s *State, f *Frame, call *ssa.Call, fn *ssa.Function,
 		return true
 	case "bytes.Equal":
 		a, b := args[0].(SliceV), args[1].(SliceV)
-		if _, ok := cint(a.Len); ok {
-			if _, ok := cint(b.Len); ok {
+		if _, ok := e.uniqueValue(s, a.Len); ok {
+			if _, ok := e.uniqueValue(s, b.Len); ok {
 				ca, cb := e.bytesOfSlice(s, a), e.bytesOfSlice(s, b)
 				if len(ca) != len(cb) {
 					set(False)
@@ -237,7 +249,26 @@ func (e *Engine) intrinsic(s *State, f *Frame, call *ssa.Call, fn *ssa.Function,
 				return true
 			}
 		}
-		unsupp("bytes.Equal on symbolic-length slices")
+		// symbolic lengths with few feasible values: lengths equal and every byte below the
+		// length equal
+		va, vb := e.feasibleValues(s, a.Len, 0, 64), e.feasibleValues(s, b.Len, 0, 64)
+		if len(va) == 0 || len(vb) == 0 {
+			s.Status = "infeasible"
+			return true
+		}
+		max := va[len(va)-1]
+		if m := vb[len(vb)-1]; m < max {
+			max = m
+		}
+		r := Eq(a.Len, b.Len)
+		if max > 0 {
+			ca, cb := e.sliceElemsN(s, a, max), e.sliceElemsN(s, b, max)
+			for i := 0; i < max; i++ {
+				r = And(r, Or(BVCmp("bvsle", a.Len, I64(i)), cellEq(ca[i].(*Term), cb[i].(*Term))))
+			}
+		}
+		set(r)
+		return true
 	case "path.Join":
 		vs := e.variadic(s, args[0])
 		parts := make([]string, len(vs))
@@ -347,6 +378,10 @@ func cellsToArray(cells []*Term) *ArrayV {
 
 const hextable = "0123456789abcdef"
 
+// hexOf remembers, for every symbolic lower-case hex digit cell, the nibble it renders, so that
+// string equality over hex text reduces to equality of nibbles.
+var hexOf = map[*Term]*Term{}
+
 func hexNibble(n *Term, upper bool) *Term {
 	// n is a 4-bit value zero-extended to 8 bits
 	if n.IsConst() {
@@ -360,7 +395,37 @@ func hexNibble(n *Term, upper bool) *Term {
 	if upper {
 		a = int64('A' - 10)
 	}
-	return Ite(BVCmp("bvult", n, BVInt(10, 8)), BVBin("bvadd", n, BVInt('0', 8)), BVBin("bvadd", n, BVInt(a, 8)))
+	t := Ite(BVCmp("bvult", n, BVInt(10, 8)), BVBin("bvadd", n, BVInt('0', 8)), BVBin("bvadd", n, BVInt(a, 8)))
+	if !upper {
+		hexOf[t] = n
+	}
+	return t
+}
+
+// cellEq is byte equality with the hex-digit shortcut.
+func cellEq(a, b *Term) *Term {
+	na, oka := hexOf[a]
+	nb, okb := hexOf[b]
+	switch {
+	case oka && okb:
+		return Eq(na, nb)
+	case oka && b.IsConst():
+		return hexConstEq(na, b)
+	case okb && a.IsConst():
+		return hexConstEq(nb, a)
+	}
+	return Eq(a, b)
+}
+
+func hexConstEq(n, c *Term) *Term {
+	v := c.Const.Int64()
+	switch {
+	case v >= '0' && v <= '9':
+		return Eq(n, BVInt(v-'0', 8))
+	case v >= 'a' && v <= 'f':
+		return Eq(n, BVInt(v-'a'+10, 8))
+	}
+	return False
 }
 
 func hexCells(cells []*Term) []*Term {
